@@ -82,12 +82,8 @@ theorem C19_coeff_is_derivative_height (P : Pts ℝ) (o : GObs ℝ) (tol : ℝ) 
     `Angular().scale()/Linear().scale()`; for every non-vertical sight.
     Holds for the repaired formula `pd(-l1*l3*q, -l2*l3*q, r/s)` (notes/proposed/C19-zenith-horizontal-coef.diff);
     on the unrepaired tree (`-l1*q, -l2*q`) this proof fails and the `lin` stream shows the wrong derivative.
-    `_partial` — full statement: for every displacement ξ of station and target (frames and the vertical held
-    fixed, `dB = dL = 0`, stored frame = `frame B L`) `HasDerivAt (t ↦ angPerLin · zenithFn (P moved by t·ξ))
-    (rowDot (evalRow P row) ξ) 0`.  Missing: (i) `zenithFn = zen (zLocal)` (needs the row-orthonormality of the
-    frame), (ii) the target's coefficients `R_toᵀ(−R_from·pd)` contract with the target's displacement to
-    `−pd · (R_fromᵀ D_to)` (linear algebra, no calculus).  Both are covered numerically by the derivative
-    oracle of the `lin` stream for station and target. -/
+    Kept as the statement in the station's own axes; the full statement (every displacement of station and target,
+    the target's rotated coefficients, `zenithFn = zen (zLocal)`) is `C19_coeff_is_derivative_zenith` below. -/
 theorem C19_coeff_is_derivative_zenith_partial (P : Pts ℝ) (o : GObs ℝ) (tol : ℝ)
     (h : (zLocal P o).e1 * (zLocal P o).e1 + (zLocal P o).e2 * (zLocal P o).e2 ≠ 0) :
     ∃ cN cE cU tN tE tU,
@@ -114,7 +110,9 @@ example :
     specification.  What makes "unrotated" correct is `C19_coeff_is_derivative_vector` + `C19_vector_one_step`:
     the three rows of a vector are the ECEF components of `to − from`, so the residuals `A x − b` of these rows
     are ECEF residuals and their weight is the inverse of the ECEF covariance; only the unknowns are in n-e-u.
-    The composition into one statement about the normal equations (LS layer) is not done (see report). -/
+    The content is `C19_vector_rows_are_ecef` below: the residuals of the three rows are the ECEF components of
+    "adjusted vector − observed vector", so the 3×3 ECEF covariance of the observation is the covariance of exactly
+    these three residuals. -/
 theorem C19_vector_cov_unrotated (sd : ℝ) (c : List ℝ) :
     @cofactorBlock ℝ realScalar sd c = c.map (fun v => v / (sd * sd)) := by
   unfold cofactorBlock
@@ -273,7 +271,9 @@ example :
 
 /-- the sparse row the generated linearisation hands to `SparseMatrix::add_element` is its *symbolic* row
     (coefficients keyed by point name and component, `symRow`) under the column indices of the book, whenever the
-    points the linearisation reads carry these indices — the link between the generated rows and `matOf` below -/
+    points the linearisation reads carry these indices — the link between the generated rows and `matOf` below.
+    The hypothesis `h` is discharged by `C19_update_index_is_book` for the points `ptsOf net idx.ind ob` the network
+    model hands to the linearisation; `C19_record_order_independent` is the hypothesis-free composition. -/
 theorem C19_rows_symbolic {ι : Type} (P : Pts ℝ) (names : Role → ι) (index : Par ι → Nat)
     (h : ∀ r c, @GPt.index ℝ (P r) c = index (names r, c)) (r : GRow ℝ) :
     evalRow P r = (symRow P names r).map fun e => (e.2, index e.1) :=
@@ -432,7 +432,8 @@ theorem C19_update_index_is_book {ι K : Type} [DecidableEq ι] [Scalar K] (net 
     — whichever algorithm produced it (C01: each returns an `IsLSSolution`), any weight matrix `W` attached to the
     observations, any regularisation set `S` — is the solution of the second after renumbering (LS5): same `Φ`,
     residuals per observation (`v ∘ ρ`), and the same correction for every parameter, hence the same reported
-    `dn de du` and adjusted `X Y Z` of every point. -/
+    `dn de du` and adjusted `X Y Z` of every point (`C19_adjusted_xyz_from_neu` expresses them through `neuCorr`);
+    the defect (nullity) and the redundancy `dm_rows − dm_cols + defect` are the same. -/
 theorem C19_record_order_independent {ι : Type} [DecidableEq ι] (net : Net ι ℝ) {nobs₁ nobs₂ : List (NObs ι ℝ)}
     (h : nobs₁.Perm nobs₂) :
     (bookOf net nobs₁).idx.cols = (bookOf net nobs₂).idx.cols ∧ (bookOf net nobs₁).rows = (bookOf net nobs₂).rows ∧
@@ -453,10 +454,21 @@ theorem C19_record_order_independent {ι : Type} [DecidableEq ι] (net : Net ι 
           (S.map e.toEmbedding) (x ∘ e.symm) (v ∘ ρ) rtr) ∧
       (∀ (x : Fin (bookOf net nobs₁).idx.cols → ℝ) (n : ι) (c : Comp),
         neuCorr net.points (bookOf net nobs₂) (vecAt (x ∘ e.symm)) n c =
-          neuCorr net.points (bookOf net nobs₁) (vecAt x) n c) := by
+          neuCorr net.points (bookOf net nobs₁) (vecAt x) n c) ∧
+      LS.nullity (designOf (bookOf net nobs₁).idx.cols (netEqsR net nobs₂)) =
+        LS.nullity (designOf (bookOf net nobs₁).idx.cols (netEqsR net nobs₁)) ∧
+      redundancy (bookOf net nobs₂) (LS.nullity (designOf (bookOf net nobs₁).idx.cols (netEqsR net nobs₂))) =
+        redundancy (bookOf net nobs₁) (LS.nullity (designOf (bookOf net nobs₁).idx.cols (netEqsR net nobs₁))) := by
   obtain ⟨hc, hr, e, ρ, he, hm, hb, hrk, hls⟩ := record_order_independent net h
-  refine ⟨hc, hr, e, ρ, he, hm, hb, hrk, hls, fun x n c => ?_⟩
-  exact neuCorr_renumber net.points _ _ (final_inv net.points _).1 e he x n c
+  have hnul : LS.nullity (designOf (bookOf net nobs₁).idx.cols (netEqsR net nobs₂)) =
+      LS.nullity (designOf (bookOf net nobs₁).idx.cols (netEqsR net nobs₁)) := by
+    have h1 := LS.rank_add_nullity (designOf (bookOf net nobs₁).idx.cols (netEqsR net nobs₁))
+    have h2 := LS.rank_add_nullity (designOf (bookOf net nobs₁).idx.cols (netEqsR net nobs₂))
+    omega
+  refine ⟨hc, hr, e, ρ, he, hm, hb, hrk, hls, fun x n c => ?_, hnul, ?_⟩
+  · exact neuCorr_renumber net.points _ _ (final_inv net.points _).1 e he x n c
+  · unfold redundancy
+    rw [hnul, hc, hr]
 
 /-- non-vacuity of `C19_record_order_independent` and of the index theorem: two free points observed from a fixed
     one, the two records swapped: the indices the linearisation reads for the second vector's target are 4 5 6 in one
@@ -471,6 +483,23 @@ example :
      (ptsOf net (updateObservations net.points o₂).idx.ind (.vector 0 2) .to).index .N,
      (ptsOf net (updateObservations net.points o₁).idx.ind (.vector 0 2) .frm).index .N) = (4, 1, 0) := by
   decide
+
+/-- `dm_rows` is the number of project equations the linearisation loop produces (every active observation
+    contributes `dimension()` rows with as many right-hand sides), and the redundancy coded in
+    `Model::update_adjustment`, with the defect of the *assembled* design matrix, is equations − rank (LS10):
+    `C19_redundancy_defect` / `C19_redundancy_rank` composed with the assembly -/
+theorem C19_redundancy_is_equations_minus_rank {ι : Type} [DecidableEq ι] (net : Net ι ℝ) (nobs : List (NObs ι ℝ)) :
+    (netEqsR net nobs).length = (bookOf net nobs).rows ∧
+    redundancy (bookOf net nobs) (LS.nullity (designOf (bookOf net nobs).idx.cols (netEqsR net nobs))) =
+      ((netEqsR net nobs).length : ℤ) - ((designOf (bookOf net nobs).idx.cols (netEqsR net nobs)).rank : ℤ) :=
+  ⟨netEqs_length net nobs, redundancy_eq_rows_sub_rank net nobs⟩
+
+/-- the assembled design matrix applied to a vector of unknowns is the sparse row applied to it
+    (`Σ coef · x(index)`): the link between the row-level theorems (`C19_coeff_is_derivative_*`, `C19_*_one_step`,
+    stated with `rowDot`) and the matrix-level ones (`IsLSSolution`) -/
+theorem C19_design_mulVec {m n : Nat} (rows : Fin m → Row ℝ) (x : Fin n → ℝ) (i : Fin m) :
+    (matOfRows n rows *ᵥ x) i = @rowDot ℝ realScalar (rows i) (vecAt x) :=
+  matOfRows_mulVec rows x i
 
 /-- **the angle coefficients are derivatives** (was: numerically only).  Station, left and right target are displaced by
     `t·ξf`, `t·ξl`, `t·ξr`, each in its own n-e-u frame.  There are differentiable direction angles `θl`, `θr` of the
